@@ -167,8 +167,11 @@ func compression(w *world, src, dst *side, big bool) {
 				if big && ti == 1 {
 					// large payloads in one group per level only: the receive path copies the buffered rest of
 					// the stream once per frame, megabytes in flight make everything slow
-					sizes = append(sizes, 65536, 300000)
-					if lv == gen.CompressionDefault {
+					sizes = append(sizes, 65536)
+					if hk.Thorough() || lv == gen.CompressionBestSpeed {
+						sizes = append(sizes, 300000)
+					}
+					if hk.Thorough() && lv == gen.CompressionDefault {
 						sizes = append(sizes, 1<<20)
 					}
 				}
